@@ -14,6 +14,7 @@ import MTfitVerif.Model.Chain
 import MTfitVerif.Model.Potency
 import MTfitVerif.Model.JobPool
 import MTfitVerif.Model.RandomMT
+import MTfitVerif.Model.PostProc
 /- dispatch table of the executable model -/
 namespace MTfitVerif.Driver
 open MTfitVerif Proto
@@ -530,7 +531,35 @@ def opRandom : P String := do
   | "clvd" => do let u ← flt; let a ← pV3; let x ← pV3; done; pure (oV6 (RandomMT.randomType (RandomMT.clvdDiag u) a x))
   | _ => pure "bad-op:random"
 
+/-- `post mean n (p m×6)…` | `post maxidx n p…` | `post unique n tok…` | `post select n nidx idx…`
+    | `post project area lower full back x y z` -/
+def opPost : P String := do
+  let k ← tok
+  match k with
+  | "mean" => do
+    let n ← nat
+    let rows ← many n (do let p ← flt; let m ← flts 6; pure (p, m)); done
+    pure (outFs (PostProc.meanMt (rows.map (·.2)) (rows.map (·.1))))
+  | "maxidx" => do
+    let n ← nat; let ps ← flts n; done
+    pure (" ".intercalate ((PostProc.maxProbIdx ps).map toString))
+  | "unique" => do
+    let n ← nat; let ts ← many n nat; done
+    pure (" ".intercalate ((PostProc.uniqueCounts ts).map fun p => s!"{p.1} {p.2}"))
+  | "select" => do
+    let n ← nat; let ni ← nat; let idx ← many ni nat; done
+    match PostProc.select (List.range n) idx with
+    | none => pure "err:index"
+    | some r => pure (" ".intercalate (r.map toString))
+  | "project" => do
+    let area ← bool; let lower ← bool; let full ← bool; let back ← bool; let x ← flt; let y ← flt; let z ← flt; done
+    match PostProc.project area lower full back x y z with
+    | none => pure "nan"
+    | some (a, b) => pure (outFs [a, b])
+  | _ => pure "bad-op:post"
+
 def table : List (String × P String) := [
+  ("post", opPost),
   ("random", opRandom),
   ("jobpool", opJobPool),
   ("conv", opConv),
